@@ -239,5 +239,75 @@ fn c14_w_crash_address_reachable() {
     assert!(false);
 }
 
+// ---------------------------------------------------------------- Windows error-code decoding with the two giant tables stubbed
+use minidump_common::errors as werr;
+
+/// Call log of the table stubs: (table, argument, answer) for up to 4 calls.
+pub static mut TBL_CALLS: [(u8, u64, bool); 4] = [(0, 0, false); 4];
+pub static mut TBL_N: usize = 0;
+fn tbl_log(t: u8, n: u64) -> bool {
+    let a: bool = kani::any();
+    unsafe {
+        if TBL_N < 4 {
+            TBL_CALLS[TBL_N] = (t, n, a);
+        }
+        TBL_N += 1;
+    }
+    a
+}
+/// Stand-in for the derive-generated `<WinErrorWindows as FromPrimitive>::from_u64` (≈ 3000 arms): answers
+/// "a member" / "not a member" nondeterministically and records the value that was looked up.
+pub fn stub_winerror_from_u64(n: u64) -> Option<werr::WinErrorWindows> {
+    if tbl_log(1, n) { Some(werr::WinErrorWindows::ERROR_SUCCESS) } else { None }
+}
+/// Same for `<NtStatusWindows as FromPrimitive>::from_u64`.
+pub fn stub_ntstatus_from_u64(n: u64) -> Option<werr::NtStatusWindows> {
+    if tbl_log(2, n) { Some(werr::NtStatusWindows::STATUS_SUCCESS) } else { None }
+}
+
+/// F: CrashReason::from_windows_error, CrashReason::from_windows_error_with_facility, WinErrorFacilityWindows::from_u32 (real)
+/// I: every 32-bit error code; every membership answer of the two tables
+/// B: one code
+/// A: the WinError and NTSTATUS membership tables (`FromPrimitive::from_u64` of two enums with thousands of variants) replaced by stubs that answer member / not a member nondeterministically and record the value looked up
+/// O: decoding order and bit fields as documented: the whole code is looked up as a WinError first, then as an NTSTATUS; only then, and only if one of the four severity bits 28..31 is set, bits 16..27 (12 bits) are looked up as a facility and bits 0..15 as a WinError; anything else is WindowsUnknown(code) carrying the code unchanged; never panics
+#[kani::proof]
+#[kani::unwind(6)]
+#[kani::stub(<minidump_common::errors::WinErrorWindows as num_traits::FromPrimitive>::from_u64, stub_winerror_from_u64)]
+#[kani::stub(<minidump_common::errors::NtStatusWindows as num_traits::FromPrimitive>::from_u64, stub_ntstatus_from_u64)]
+fn c14_q_windows_error_code_decoding() {
+    let code: u32 = kani::any();
+    let r = CrashReason::from_windows_error(code);
+    let n = unsafe { TBL_N };
+    let c = unsafe { TBL_CALLS };
+    assert!(n >= 1 && n <= 3);
+    // first question: the whole code as a WinError
+    assert!(c[0].0 == 1 && c[0].1 == code as u64);
+    let facility = (code >> 16) & 0xfff;
+    let severity = code & 0xf000_0000 != 0;
+    match r {
+        CrashReason::WindowsWinError(_) => assert!(n == 1 && c[0].2),
+        CrashReason::WindowsNtStatus(_) => assert!(n == 2 && !c[0].2 && c[1].0 == 2 && c[1].1 == code as u64 && c[1].2),
+        CrashReason::WindowsWinErrorWithFacility(f, _) => {
+            assert!(n == 3 && !c[0].2 && !c[1].2);
+            assert!(severity && f as u32 == facility);
+            assert!(c[2].0 == 1 && c[2].1 == (code & 0xffff) as u64 && c[2].2);
+        }
+        CrashReason::WindowsUnknown(x) => {
+            assert!(x == code);
+            assert!(!c[0].2 && n >= 2 && !c[1].2);
+            // not decoded as facility + error although both lookups would have succeeded: impossible
+            let known_facility = <werr::WinErrorFacilityWindows as num_traits::FromPrimitive>::from_u32(facility).is_some();
+            if n == 3 {
+                assert!(severity && known_facility && c[2].0 == 1 && c[2].1 == (code & 0xffff) as u64 && !c[2].2);
+            } else {
+                assert!(!severity || !known_facility);
+            }
+        }
+        _ => assert!(false),
+    }
+    kani::cover!(matches!(r, CrashReason::WindowsWinErrorWithFacility(..)), "a facility code is decoded");
+    kani::cover!(matches!(r, CrashReason::WindowsUnknown(_)) && n == 3, "known facility, unknown error");
+}
+
 #[path = "../playback/c14_exception.rs"]
 mod playback;
